@@ -104,6 +104,8 @@ static void Tuple_Del(var self) {
 }
 
 static void Tuple_Push(var self, var obj);
+static size_t Tuple_Len(var self);
+static void Tuple_Resize(var self, size_t n);
 
 static void Tuple_Assign(var self, var obj) {
   struct Tuple* t = self;
@@ -135,6 +137,8 @@ static void Tuple_Assign(var self, var obj) {
     t->items[nargs] = Terminal;
   
   } else {
+    
+    if (Tuple_Len(self) > 0) { Tuple_Resize(self, 0); }
     
     foreach (item in obj) {
       Tuple_Push(self, item);
